@@ -155,7 +155,7 @@ Lemma update_service_step j v fq b :
   b_type b' = b_type b /\ b_cache b' = b_cache b /\
   Step (b_type b) j es (b_services b) (b_services b') /\ (forall j', j' <> j -> quiet j' es).
 Proof.
-  unfold update_service. destruct (split_fq fq) as [sname stype] eqn:SF.
+  unfold update_service. destruct (split_fq fq) as [sname stype] eqn:SF. rewrite not_of_interest_spec.
   destruct ((match bs_data stype with [] => true | _ :: _ => false end)
             || (negb (bs_eqb (b_type b) (Some browse_type)) && negb (bs_eqb stype (b_type b)))) eqn:G.
   { repeat split; auto using Step_refl, quiet_nil. }
